@@ -27,7 +27,7 @@ pub fn scenarios() -> Vec<Scenario> {
         name: "c05-sched",
         gen,
         run,
-        quick_runs: 6_000,
+        quick_runs: 100_000,
         weight: 1,
         rule: "case = (stream, random schedule); non-trivial when the random schedule splits the stream into >= 2 reads or contains a Pending, or the sweep ran >= 3 schedules; distinct by case hash",
     }]
